@@ -67,7 +67,13 @@ def check_batch(run, b, nrand, valgrind=False):
     lines = []
     meta = []
     nobus_ids = [i for n, i, bus in b.can_bindings if bus is None]
-    bindings = [x for x in b.can_bindings if x[2] is not None]
+    bindings = [x for x in b.can_bindings if x[2] is not None and not x[0].startswith("<")]
+    for n_, i_, bus_ in b.can_bindings:
+        if n_ == "<non-can>":
+            frame = "%d %s %d %s" % (i_, bus_hex(bus_), 8, "00" * 8)
+            for op in ("CSD", "CDD"):
+                lines.append(op + " " + frame)
+                meta.append((op + "-unknown", "the (id, bus) of a binding of another protocol", i_, bus_, None, None, 0))
     used = {(i, bus) for _, i, bus in bindings}
     all_buses = sorted({bus for _, _, bus in bindings})
     r = run.rng("probes", b.bi)
